@@ -108,7 +108,12 @@ func H_C08_layout() {
 	special := map[int]string{}
 	for g := 0; g < ngaps; g++ {
 		pos := VChoice(len(p.toks) - 1)
-		special[pos] = c08Seps[VChoice(len(c08Seps))]
+		if g == 0 {
+			special[pos] = c08Seps[VChoice(len(c08Seps))]
+		} else {
+			// further gaps use the six separators that interact with neighbours (comments, CR/LF pairs)
+			special[pos] = []string{" --[\n", " --[=\n", "\r\n", " --[[x]] ", "\n\r", " --c\n"}[VChoice(6)]
+		}
 	}
 	canon, varied := "", ""
 	for i, t := range p.toks {
